@@ -5,7 +5,12 @@ use std::f64::consts::PI;
 const P_X: Matrix3<f64> = Matrix3::new(0.0, 0.0, 0.0, 0.0, 0.0, -1.0, 0.0, 1.0, 0.0);
 const P_Y: Matrix3<f64> = Matrix3::new(0.0, 0.0, 1.0, 0.0, 0.0, 0.0, -1.0, 0.0, 0.0);
 const P_Z: Matrix3<f64> = Matrix3::new(0.0, -1.0, 0.0, 1.0, 0.0, 0.0, 0.0, 0.0, 0.0);
-const EPSILON: f64 = 1e-8;
+// Threshold on `1 - |sin(ry)|` below which a rotation is treated as being in gimbal lock. The pitch is
+// snapped to exactly +/- 90 degrees there, which changes the rotation by up to `sqrt(2 * EPSILON)`
+// radians, while the regular branch loses about `1e-16 / sqrt(2 * EPSILON)` radians to cancellation, so
+// the two errors balance near 1e-16. (The former value of 1e-8 replaced every pitch within 1.4e-4
+// radians of +/- 90 degrees by exactly +/- 90 degrees.)
+const EPSILON: f64 = 1e-15;
 
 #[derive(Clone)]
 pub struct Euler<T> {
